@@ -49,9 +49,13 @@ def _kv(n, p):
     return A.clamped_kv(p, [(x, 1) for x in INTERIOR[n - p - 1]])
 
 
-def _desc(sizes, degrees, rational):
+def _desc(sizes, degrees, rational, pole=False):
     degrees = [min(p, n - 1) for n, p in zip(sizes, degrees)]
-    return A.shape_desc([_kv(n, p) for n, p in zip(sizes, degrees)], list(degrees), rational, 3, 'coded', 'coded')
+    d = A.shape_desc([_kv(n, p) for n, p in zip(sizes, degrees)], list(degrees), rational, 3, 'coded', 'coded')
+    if pole:
+        d['pole'] = True
+        d['points'] = [_pole_pt(d, i, j, k) for i, j, k in A.indices(d['sizes'])]
+    return d
 
 
 SURF_SIZES = [(a, b) for a in (2, 3, 4) for b in (2, 3, 4, 5) if a != b]
@@ -90,6 +94,14 @@ def gen_cases(tier, seed):
         for degs in _degree_combos(sz, D):
             for rat in (False, True):
                 cases.append(dict(kind='volume', shape=_desc(sz, degs, rat)))
+    # data variety: coincident control points with different weights (collapsed row, doubled point)
+    for sz in SURF_SIZES[::2]:
+        for degs in _degree_combos(sz, D)[:2]:
+            for rat in (False, True):
+                cases.append(dict(kind='surface', shape=_desc(sz, degs, rat, pole=True)))
+    for sz in VOL_SIZES[::2]:
+        cases.append(dict(kind='volume', shape=_desc(sz, (1, 1, 1), True, pole=True)))
+    cases.append(dict(kind='sweep', shape=_desc((3, 4), (1, 2), True, pole=True)))
     for sz in [(11,), (12,), (258,)] + BIG_SURF + BIG_VOL:
         cases.append(dict(kind='manager', sizes=list(sz)))
     for sz in BIG_SURF:
@@ -132,10 +144,21 @@ def run_case(case, ctx):
 # helpers
 # ----------------------------------------------------------------------------------------
 
+def _pole_pt(desc, i, j, k):
+    """data variety: nets with coincident control points that carry different weights - the whole row u = 0 collapsed to one
+    point (a pole / cone apex), and two coincident points elsewhere"""
+    if desc.get('pole'):
+        if i == 0:
+            j = 0
+        elif i == desc['sizes'][0] - 1 and j == 1:
+            j = 0
+    return A._coded(i, j, k, desc['dim'])
+
+
 def _hpt(desc, idx):
     """the (homogeneous, if rational) control point the descriptor puts at (u,v,w) - straight from the coding function"""
     i, j, k = (list(idx) + [0, 0])[:3]
-    pt = A._coded(i, j, k, desc['dim'])
+    pt = _pole_pt(desc, i, j, k)
     if not desc['rational']:
         return pt
     w = 1.0 + ((2 * i + 3 * j + 5 * k) % 4) / 2.0
@@ -144,7 +167,7 @@ def _hpt(desc, idx):
 
 def _upt(desc, idx):
     i, j, k = (list(idx) + [0, 0])[:3]
-    return A._coded(i, j, k, desc['dim'])
+    return _pole_pt(desc, i, j, k)
 
 
 def _sub_def(desc, dirs, fixed):
